@@ -110,6 +110,97 @@ theorem sorted_bad_counterexample :
 
 end reorder
 
+/-! ## distribution of the atoms over the ONIOM fragments -/
+section distribute
+
+theorem distribute_aux (geom : List Atom) : ∀ (fs : List FragSpec) (st : DistSt), st.sys = geom →
+    (∀ f ∈ fs, f.sel = Sel.all → f.links = []) →
+    match fs.mapM (fragGeom geom) with
+    | none => fs.foldlM distStep st = none
+    | some gs => ∃ st', fs.foldlM distStep st = some st' ∧ st'.sys = geom ∧
+        st'.frags.map (fun g => g.getD geom) = st.frags.map (fun g => g.getD geom) ++ gs
+  | [], st, hs, _ => by
+    simp only [List.mapM_nil, pure, List.foldlM_nil]
+    exact ⟨st, rfl, hs, by simp⟩
+  | f :: fs, st, hs, hall => by
+    have hrest : ∀ g ∈ fs, g.sel = Sel.all → g.links = [] := fun g hg => hall g (List.mem_cons_of_mem _ hg)
+    rw [List.mapM_cons, List.foldlM_cons]
+    -- the step agrees with `fragGeom` and leaves the system geometry alone
+    have hstep : match fragGeom geom f with
+        | none => distStep st f = none
+        | some g => ∃ st1, distStep st f = some st1 ∧ st1.sys = geom ∧
+            st1.frags.map (fun x => x.getD geom) = st.frags.map (fun x => x.getD geom) ++ [g] := by
+      cases hsel : f.sel with
+      | all =>
+        have hl := hall f List.mem_cons_self hsel
+        simp only [fragGeom, hsel, selectAtoms, hl, List.mapM_nil, pure, bind, Option.bind, List.append_nil]
+        refine ⟨{ sys := st.sys, frags := st.frags ++ [none] }, ?_, hs, ?_⟩
+        · simp [distStep, hsel, hl, pure]
+        · simp
+      | first n =>
+        simp only [fragGeom, hsel, selectAtoms, bind, Option.bind, pure]
+        cases hc : f.links.mapM (capOf geom) with
+        | none => simp [distStep, hsel, selectAtoms, hs, hc, bind, Option.bind]
+        | some caps =>
+          refine ⟨{ st with frags := st.frags ++ [some (geom.take n ++ caps)] }, ?_, hs, ?_⟩
+          · simp [distStep, hsel, selectAtoms, hs, hc, bind, Option.bind, pure]
+          · simp
+      | idx l =>
+        simp only [fragGeom, hsel, selectAtoms, bind, Option.bind, pure]
+        cases ho : l.mapM (fun i => geom[i]?) with
+        | none => simp [distStep, hsel, selectAtoms, hs, ho, bind, Option.bind]
+        | some own =>
+          cases hc : f.links.mapM (capOf geom) with
+          | none => simp [distStep, hsel, selectAtoms, hs, ho, hc, bind, Option.bind]
+          | some caps =>
+            refine ⟨{ st with frags := st.frags ++ [some (own ++ caps)] }, ?_, hs, ?_⟩
+            · simp [distStep, hsel, selectAtoms, hs, ho, hc, bind, Option.bind, pure]
+            · simp
+    cases hf : fragGeom geom f with
+    | none =>
+      rw [hf] at hstep
+      simp only [bind, Option.bind, hstep]
+    | some g =>
+      rw [hf] at hstep
+      obtain ⟨st1, h1, h2, h3⟩ := hstep
+      have ih := distribute_aux geom fs st1 h2 hrest
+      simp only [bind, Option.bind, h1]
+      cases hm : fs.mapM (fragGeom geom) with
+      | none => rw [hm] at ih; simpa using ih
+      | some gs =>
+        rw [hm] at ih
+        obtain ⟨st', h4, h5, h6⟩ := ih
+        refine ⟨st', h4, h5, ?_⟩
+        rw [h6, h3]; simp [pure]
+
+/-- **Every fragment receives its own atoms and its own capping atoms - nothing else.**  Provided no fragment without
+    atom selection (the whole system) carries broken links, the loop of `distribute_atoms` - in-place extension and
+    shared list object included - gives each fragment exactly `fragGeom` of the ORIGINAL system geometry and of that
+    fragment's own specification: the result does not depend on the other fragments nor on their order, and an index
+    outside the geometry is an error in the one exactly when it is in the other. -/
+theorem distribute_independent (geom : List Atom) (fs : List FragSpec) (h : ∀ f ∈ fs, f.sel = Sel.all → f.links = []) :
+    distribute geom fs = fs.mapM (fragGeom geom) := by
+  have := distribute_aux geom fs { sys := geom, frags := [] } rfl h
+  unfold distribute
+  cases hm : fs.mapM (fragGeom geom) with
+  | none => rw [hm] at this; simp [this]
+  | some gs =>
+    rw [hm] at this
+    obtain ⟨st', h1, h2, h3⟩ := this
+    simp [h1, h2, h3]
+
+/-- without that proviso the shared list object shows: a capped whole-system fragment changes what LATER fragments select -/
+theorem distribute_alias_counterexample :
+    distribute [(0, 0, 0), (10, 0, 0)] [⟨.all, [⟨0, 1, 5⟩]⟩, ⟨.first 3, []⟩]
+      = some [[(0, 0, 0), (10, 0, 0), (5, 0, 0)], [(0, 0, 0), (10, 0, 0), (5, 0, 0)]] ∧
+    [FragSpec.mk .all [⟨0, 1, 5⟩], ⟨.first 3, []⟩].mapM (fragGeom [(0, 0, 0), (10, 0, 0)])
+      = some [[(0, 0, 0), (10, 0, 0), (5, 0, 0)], [(0, 0, 0), (10, 0, 0)]] := by decide
+
+example : distribute [(0, 0, 0), (10, 0, 0), (20, 0, 0), (30, 0, 0)] [⟨.all, []⟩, ⟨.idx [1, 2], [⟨1, 0, 7⟩, ⟨2, 3, 5⟩]⟩]
+    = some [[(0, 0, 0), (10, 0, 0), (20, 0, 0), (30, 0, 0)], [(10, 0, 0), (20, 0, 0), (3, 0, 0), (25, 0, 0)]] := by decide
+
+end distribute
+
 /-! ## method of increments -/
 section mi
 open Finset
